@@ -4,7 +4,7 @@
 # (still) detected.  Applies each patch to /repo and ALWAYS reverts (tools/try_seed.sh).
 # Output: one line per seed; exit 1 if any is missed.
 cd /verif
-IDS="${*:-$(ls seeded)}"
+IDS="${*:-$(ls seeded | grep -E '^C[0-9]+$')}"
 miss=0; tot=0
 for id in $IDS; do
   for d in seeded/$id/*/; do
